@@ -23,8 +23,9 @@ PROP = {
                     "views and to cover [low, high] up to numpy.isclose of high with an edge (the "
                     "library's own convention)",
                     "2-D grids / projections of Bin(Bin(Count)) and SparselyBin(SparselyBin(Count)) are checked "
-                    "on the implementation against the cells themselves (not modelled); Categorize labels "
-                    "and mpv are not checked"],
+                    "on the implementation against the cells themselves (not modelled); Categorize labels / "
+                    "entries / mpv against totals computed from the fills, mpv of Bin / SparselyBin / "
+                    "CentrallyBin against the bins themselves (implementation only)"],
 }
 
 KINDS = ["Bin", "SparselyBin", "CentrallyBin", "IrregularlyBin"]
@@ -45,8 +46,15 @@ def close(a, b):
 def gen_2d(r, i, tier):
     """Bin(Bin(Count)) / SparselyBin(SparselyBin(Count)) over fields 0 and 1, with rows whose y is out of
     range or NaN; the grid and the projections are checked on the implementation (not modelled)"""
-    sparse = (i % 2 == 1)
-    if sparse:
+    sparse = (i % 3 == 1)
+    irr = (i % 3 == 2)
+    if irr:
+        cnt = {"k": "Count"}
+        inner = {"k": "IrregularlyBin", "edges": r.choice([[0.0, 1.0, 2.0], [-0.5, 0.5, 1.5, 2.5]]),
+                 "q": {"name": None, "id": 0, "e": ["f", 1]}, "value": cnt, "nan": cnt}
+        spec = {"k": "IrregularlyBin", "edges": r.choice([[-1.0, 0.0, 1.0], [-1.5, -0.5, 0.5, 1.5]]),
+                "q": {"name": None, "id": 0, "e": ["f", 0]}, "value": inner, "nan": cnt}
+    elif sparse:
         inner = {"k": "SparselyBin", "bw": r.choice([0.5, 1.0, 0.25]), "origin": r.choice([0.0, 0.25]),
                  "q": {"name": None, "id": 0, "e": ["f", 1]}, "value": {"k": "Count"}, "nan": {"k": "Count"}}
         spec = {"k": "SparselyBin", "bw": r.choice([0.5, 1.0, 2.0]), "origin": r.choice([0.0, -0.5]),
@@ -62,10 +70,10 @@ def gen_2d(r, i, tier):
     for _ in range(r.randint(1, 14)):
         ops.append(("fill", 0, [r.choice(vals), r.choice(vals), 0.0, "a", False], r.choice([1.0, 1.0, 2.0, 0.5])))
     ops.append(("snapp", 0))
-    return {"ops": ops, "meta": {"twod": True, "sparse": sparse}}
+    return {"ops": ops, "meta": {"twod": True, "sparse": sparse, "irr": irr}}
 
 
-def check_2d(h, sparse):
+def check_2d(h, sparse, irr=False):
     fails = []
 
     def bad(clause, diff):
@@ -77,7 +85,21 @@ def check_2d(h, sparse):
         return fails if not h.bins else [{"clause": "2-D views answer for a filled histogram", "diff": "KeyError"}]
     except Exception as e:  # noqa: BLE001
         return [{"clause": "2-D views answer", "diff": "%s: %s" % (type(e).__name__, e)}]
-    if sparse:
+    if irr:
+        cells = [[c.entries for _, c in b.bins] for _, b in h.bins]
+        wantx = [sum(row) for row in cells]
+        wanty = [sum(cells[i][j] for i in range(len(cells))) for j in range(len(cells[0]))]
+        gotx = [v.entries for _, v in hx.bins]
+        goty = [v.entries for _, v in hy.bins]
+        if gotx != wantx:
+            bad("the x projection holds exactly the in-range weights  [C13_projection]", "x projection %r, cells give %r" % (gotx, wantx))
+        if goty != wanty:
+            bad("the y projection holds exactly the in-range weights  [C13_projection]", "y projection %r, cells give %r" % (goty, wanty))
+        g = [[float(grid[j - 1][i - 1]) for j in range(1, len(cells[0]) - 1)] for i in range(1, len(cells) - 1)]
+        inner_cells = [row[1:-1] for row in cells[1:-1]]
+        if g != inner_cells:
+            bad("the 2-D grid holds exactly the in-range weights  [C13_grid]", "grid %r, cells %r" % (g, inner_cells))
+    elif sparse:
         cells = {(i, j): c.entries for i, b in h.bins.items() for j, c in b.bins.items()}
         wantx = {}
         wanty = {}
@@ -106,9 +128,135 @@ def check_2d(h, sparse):
     return fails
 
 
+CATS = ["a", "b", "zz", "", "tt", "long label"]
+
+
+def gen_cat(r, i, tier):
+    """Categorize over the string field: labels / entries / mpv are checked on the implementation
+    against totals computed from the fills themselves (not modelled beyond the fills)"""
+    value = r.choice([{"k": "Count"}, {"k": "Count"}, {"k": "Sum", "q": {"name": None, "id": 0, "e": ["f", 1]}}])
+    spec = {"k": "Categorize", "q": {"name": None, "id": 0, "e": ["f", 3]}, "value": value}
+    ops = [("new", spec)]
+    totals = {}
+    order = []
+    for _ in range(r.choice([0, r.randint(1, 5), r.randint(4, 14)])):
+        c = r.choice(CATS)
+        # every second program fills unit weights only: equal contents (ties for mpv) are common
+        w = 1.0 if i % 2 == 0 else r.choice([1.0, 1.0, 2.0, 0.5, 0.0, 3.0])
+        ops.append(("fill", 0, [0.5, float(r.randint(-8, 8)) / 4.0, 0.0, c, False], w))
+        if w > 0.0:
+            if c not in totals:
+                order.append(c)
+            totals[c] = totals.get(c, 0.0) + w
+    ops.append(("snapp", 0))
+    return {"ops": ops, "meta": {"cat": True, "totals": totals, "order": order}}
+
+
+def check_cat(h, meta):
+    fails = []
+
+    def bad(clause, diff):
+        fails.append({"clause": clause, "diff": diff})
+    totals, order = meta["totals"], meta["order"]
+    try:
+        labels = [str(x) for x in h.bin_labels()]
+        entries = [float(x) for x in h.bin_entries()]
+        nb = h.n_bins
+    except Exception as e:  # noqa: BLE001
+        return [{"clause": "Categorize views answer", "diff": "%s: %s" % (type(e).__name__, e)}]
+    if sorted(labels) != sorted(totals) or nb != len(totals) or len(entries) != len(labels):
+        bad("bin_labels() are the categories that were filled  [C13_labels]",
+            "labels %r (n_bins %r, %d entries), filled %r" % (labels, nb, len(entries), sorted(totals)))
+        return fails
+    got = dict(zip(labels, entries))
+    if any(got[k] != totals[k] for k in totals):
+        bad("bin_entries() holds, label by label, the weight filled into that category  [C13_labels]",
+            "views %r, fills %r" % (got, totals))
+    probe = list(totals)[:2] + ["no such label"] + list(totals)[-1:]
+    try:
+        sel = [float(x) for x in h.bin_entries(labels=probe)]
+    except Exception as e:  # noqa: BLE001
+        sel = "%s: %s" % (type(e).__name__, e)
+    if sel != [totals.get(k, 0.0) for k in probe]:
+        bad("bin_entries(labels=L) is the content of each named category, 0 for an absent one", "labels %r -> %r" % (probe, sel))
+    if totals:
+        short = [str(x) for x in h.bin_labels(max_length=2)]
+        if short != [k[:2] for k in labels]:
+            bad("bin_labels(max_length) truncates the labels", "%r vs %r" % (short, labels))
+        top = max(totals.values())
+        firstmax = next(k for k in labels if totals[k] == top)
+        try:
+            mpv = str(h.mpv)
+        except Exception as e:  # noqa: BLE001
+            mpv = "%s: %s" % (type(e).__name__, e)
+        if mpv != firstmax:
+            bad("mpv is the (first) category with the largest content  [C13_mpv]", "mpv %r, contents %r" % (mpv, got))
+    return fails
+
+
+def expected_mpv(h, kind, spec):
+    """centre of the first bin with the largest content, from the bins themselves"""
+    b = bins_of(h)
+    if kind == "SparselyBin":
+        if not b:
+            return None
+        ks = [k for k, _ in b]
+        d = dict(b)
+        seq = [(k, d.get(k, 0.0)) for k in range(min(ks), max(ks) + 1)]
+        k = max(seq, key=lambda kv: kv[1])[0] if seq else None
+        k = next(kk for kk, e in seq if e == max(e2 for _, e2 in seq))
+        return (k + 0.5) * h.binWidth + h.origin
+    if not b:
+        return None
+    top = max(e for _, e in b)
+    i = next(k for k, e in b if e == top)
+    if kind == "Bin":
+        return h.low + (i + 0.5) * (h.high - h.low) / len(h.values)
+    if kind == "CentrallyBin":
+        return h.centers[i]
+    return None
+
+
+def gen_sweep(r, i, tier):
+    """non-dyadic widths: a sub-range ending on EVERY edge origin + k*w (for widths like 0.1 the
+    quotient (edge - origin)/w is k only for some k), on a histogram filled well beyond it"""
+    sparse = (i % 2 == 0)
+    bw = [0.1, 0.7, 0.3, 1.0 / 3.0, 10.1][(i // 2) % 5]
+    origin = [0.0, 0.3, -1.7][(i // 10) % 3]
+    cnt = {"k": "Count"}
+    if sparse:
+        spec = {"k": "SparselyBin", "bw": bw, "origin": origin, "q": {"name": None, "id": 0, "e": ["f", 0]},
+                "value": cnt, "nan": cnt}
+        ks = list(range(-8, 9))
+        edge = lambda k: origin + k * bw          # noqa: E731
+    else:
+        num = 16
+        spec = {"k": "Bin", "num": num, "low": origin - 8 * bw, "high": origin + 8 * bw,
+                "q": {"name": None, "id": 0, "e": ["f", 0]}, "value": cnt, "under": cnt, "over": cnt, "nan": cnt}
+        ks = list(range(1, 16))
+        w = (spec["high"] - spec["low"]) / num
+        edge = lambda k: spec["low"] + w * k      # noqa: E731
+    ops = [("new", spec)]
+    for k in range(-9, 10):
+        ops.append(("fill", 0, [origin + (k + 0.5) * bw, 0.25, 0.0, "a", False], 1.0))
+    ops.append(("view", 0, None, None, []))
+    meta = {"views": [len(ops) - 1], "probes": [], "dyadic": False}
+    lo = origin - 8.5 * bw if sparse else spec["low"] + 0.5 * bw
+    for k in ks:
+        hi = float(edge(k))
+        if hi > lo:
+            ops.append(("view", 0, float(lo), hi, []))
+            meta["views"].append(len(ops) - 1)
+    return {"ops": ops, "meta": meta}
+
+
 def gen_one(r, i, tier):
     if i % 6 == 5:
         return gen_2d(r, i // 6, tier)
+    if i % 20 == 7:
+        return gen_sweep(r, i // 20, tier)
+    if i % 12 == 4:
+        return gen_cat(r, i // 12, tier)
     dyadic = (i % 3 != 2)
     g = gen.G(r, dyadic=dyadic, max_depth=1, names=False)
     kind = KINDS[i % 4]
@@ -130,6 +278,9 @@ def gen_one(r, i, tier):
     if "centers" in spec and len(spec["centers"]) < 2:
         spec["centers"] = [spec["centers"][0], spec["centers"][0] + 1.5]
     crit = [v for v in gen.node_criticals(spec) if v == v and abs(v) != gen.INF and abs(v) < 1e12]
+    if kind == "SparselyBin":
+        # more edges: for widths like 0.1 only some k make (origin + k*w - origin)/w differ from k
+        crit += [spec["origin"] + k * spec["bw"] for k in range(-8, 9)]
     if dyadic:
         crit = [v for v in crit if float(v * 1024).is_integer()]
     crit = sorted(set(crit + [0.0])) or [0.0, 1.0]
@@ -195,7 +346,9 @@ def oracle(p, run, exact):
     m = run["machine"]
     h = m.pool[0]
     if meta.get("twod"):
-        return check_2d(h, meta["sparse"])
+        return check_2d(h, meta["sparse"], meta.get("irr", False))
+    if meta.get("cat"):
+        return check_cat(h, meta)
     spec = p["ops"][0][1]
     kind = spec["k"]
     fails = []
@@ -268,12 +421,28 @@ def oracle(p, run, exact):
             bad("the sub-range view starts at or below low  [C13_cover]", rec, "first edge %r" % ed[0])
         if hi is not None and ed[-1] < hi and not close(ed[-1], hi) and not (kind == "Bin" and hi >= spec["high"]):
             bad("the sub-range view ends at or above high  [C13_cover]", rec, "last edge %r" % ed[-1])
+        # an upper bound that IS (to 1e-9) an edge the full view reports ends the sub-range view: no
+        # further bin beyond it (the accessors test high against the edges with numpy.isclose; a lower
+        # bound is looked up with fill's own index and may fall into the bin below a rounded edge)
+        if kind in ("Bin", "SparselyBin") and fe:
+            if hi is not None and any(close(e0, hi) for e0 in fe) and not close(ed[-1], hi):
+                bad("a sub-range ending on a reported edge ends there  [C13_tight]", rec, "last edge %r, high %r" % (ed[-1], hi))
         # ... and is tight: the first bin contains low, the last bin reaches high
         if lo is not None and len(ed) > 1 and ed[1] <= lo and not close(ed[1], lo) and not math.isinf(ed[1]):
             bad("the first bin of a sub-range view contains low  [C13_tight]", rec, "second edge %r <= low" % ed[1])
         if hi is not None and len(ed) > 1 and ed[-2] >= hi and not close(ed[-2], hi) and not math.isinf(ed[-2]) \
                 and not (kind == "Bin" and hi < spec["low"]):
             bad("the last bin of a sub-range view starts below high  [C13_tight]", rec, "last-but-one edge %r >= high" % ed[-2])
+    # mpv: the centre of the first bin with the largest content
+    want_mpv = expected_mpv(h, kind, spec)
+    if want_mpv is not None and not any(e != e for _, e in bins_of(h)):
+        try:
+            got_mpv = float(h.mpv)
+        except Exception as e:  # noqa: BLE001
+            got_mpv = "%s: %s" % (type(e).__name__, e)
+        if isinstance(got_mpv, str) or not close(got_mpv, want_mpv):
+            bad("mpv is the centre of the (first) bin with the largest content  [C13_mpv]", full,
+                "mpv %r, expected %r from bins %r" % (got_mpv, want_mpv, bins_of(h)[:8]))
     # probes
     at = full.get("entries_at") or []
     for j, pr in enumerate(meta["probes"]):
